@@ -18,9 +18,6 @@ structure Live (ch : PChain) (evs : List Ev) (n : FNode) : Prop where
     (k ≤ n.store.height ∨ k ∈ keysD n)
   hdrEmp : ∀ k b, ch k = some b → k ∈ keysH n → IsEmpty b → k ∈ keysD n
 
-/-- no block is applicable: header or data of the next height is missing -/
-def Quiet (n : FNode) : Prop := ¬ (n.store.height + 1 ∈ keysH n ∧ n.store.height + 1 ∈ keysD n)
-
 theorem advance_live (g : GoodChain c ch top) (hl : Live ch evs n) {b : Block} (d : Data)
     (hb : ch (n.store.height + 1) = some b) : Live ch evs (advance n b.sh d) := by
   have hh := advance_height n b.sh d
@@ -81,10 +78,10 @@ theorem trySync_live (g : GoodChain c ch top) : ∀ (fuel : Nat) (n : FNode), Sa
   | zero => intro n _ hl; exact ⟨hl, fun h => by omega⟩
   | succ f ih =>
     intro n hs hl
-    rcases applyNext_cases g hs with ⟨hn, hq⟩ | ⟨b, d, hb, hd, hkH, hkD, he⟩
+    rcases applyNext_cases g hs with ⟨hn, hq⟩ | ⟨b, d, hb, hd, hsrc, hkH, hkD, he⟩
     · rw [trySync_step_none hn]; exact ⟨hl, fun _ => hq⟩
     · rw [trySync_step_some he]
-      obtain ⟨a1, a2⟩ := ih _ (advance_safe g hs hb hd hkH hkD) (advance_live g hl d hb)
+      obtain ⟨a1, a2⟩ := ih _ (advance_safe g hs hb hd hkH hsrc) (advance_live g hl d hb)
       refine ⟨a1, fun hlen => a2 ?_⟩
       have : (advance n b.sh d).hdrCache.length < n.hdrCache.length := length_filter_ne_lt hkH
       omega
